@@ -309,20 +309,87 @@ static Spec3 traverse3d(const std::string& name, bool heights) {
 // C06 on inputs given as text (observation types the spec structures above do not carry): error-free observations printed with 8-10
 // decimals; every observation takes part, nothing is removed, adjusted = generating coordinates to 1e-5 m
 struct Truth { const char* id; double x, y, z; bool has_xy, has_z; };
-static void case_consistent_text(const std::string& name, const std::string& text, const std::vector<Truth>& truth, int alg) {
+static void case_consistent_text(const std::string& name, const std::string& text, const std::vector<Truth>& truth, int alg, bool all_obs = true, bool iterate = false) {
   B3 b; std::string tag = std::string(ALGS[alg]) + " " + name;
   if (!b.net.parse(text)) { sx::fail(tag + ": input rejected by the parser", b.net.parse_error + " line " + std::to_string(b.net.parse_line)); return; }
   b.obs = b.net.all_obs(); b.net.prepare(ALGS[alg], true); LocalNetwork* IS = b.net.IS.get();
   for (auto& t : truth) { const LocalPoint& lp = IS->PD[PointID(t.id)]; sx::check_true((!t.has_xy || lp.test_xy()) && (!t.has_z || lp.test_z()), tag + ": point " + t.id + " has approximate coordinates", ""); }
   bool huge = IS->huge_abs_terms(); sx::check_true(!huge, tag + ": no observation has an outlying absolute term (none is removed)", "");
+  if (huge) { sx::reached("net3d-consistent"); return; }
   R3 r = run3d(b); sx::check_true(r.ok, tag + ": adjusted", r.why); if (!r.ok) return;
-  sx::check_true(r.m == (int)b.obs.size(), tag + ": every observation takes part", std::to_string(r.m) + " of " + std::to_string(b.obs.size()));
+  if (iterate) {     // as gama-local's main(): further linearisations while the program's own test asks for them
+    IS->refine_adjustment(); const GNU_gama::local::Vec& x = IS->solve(); r.xv.clear(); for (int i = 1; i <= IS->unknowns_count(); i++) r.xv.push_back(x(i)); }
+  if (all_obs) sx::check_true(r.m == (int)b.obs.size(), tag + ": every observation takes part", std::to_string(r.m) + " of " + std::to_string(b.obs.size()));
   sx::check_true(IS->removed_points.empty(), tag + ": no point removed", "");
   for (auto& t : truth) { const LocalPoint& lp = IS->PD[PointID(t.id)]; if (!lp.active()) continue;
+    sx::check_true((!t.has_xy || (lp.free_xy() && lp.index_x())) && (!t.has_z || (lp.free_z() && lp.index_z())), tag + ": point " + t.id + " is adjusted", "");
     if (t.has_xy && lp.free_xy() && lp.index_x()) { near0(lp.x() + r.xv[lp.index_x() - 1] / sx::rat(1000) - Real(t.x), mpq_class(1, 100000), tag + ": adjusted x of " + t.id); near0(lp.y() + r.xv[lp.index_y() - 1] / sx::rat(1000) - Real(t.y), mpq_class(1, 100000), tag + ": adjusted y of " + t.id); }
     if (t.has_z && lp.free_z() && lp.index_z()) near0(lp.z() + r.xv[lp.index_z() - 1] / sx::rat(1000) - Real(t.z), mpq_class(1, 100000), tag + ": adjusted z of " + t.id); }
   sx::reached("net3d-consistent");
 }
+static const char* TEXT_TWO_AZIMUTHS =
+    "<?xml version=\"1.0\"?>\n"
+    "<gama-local>\n"
+    "<network axes-xy=\"ne\" angles=\"left-handed\">\n"
+    "<parameters sigma-apr=\"10\" conf-pr=\"0.95\" tol-abs=\"1000\" sigma-act=\"apriori\"/>\n"
+    "<points-observations>\n"
+    "<point id=\"A\" x=\"1000.00000000\" y=\"1000.00000000\" fix=\"xy\"/>\n"
+    "<point id=\"B\" x=\"1300.00000000\" y=\"1100.00000000\" fix=\"xy\"/>\n"
+    "<point id=\"P\" x=\"1100.40000000\" y=\"1249.70000000\" adj=\"xy\"/>\n"
+    "<obs from=\"A\">\n"
+    "  <azimuth to=\"P\" val=\"75.7762116818\" stdev=\"10\"/>\n"
+    "</obs>\n"
+    "<obs from=\"B\">\n"
+    "  <azimuth to=\"P\" val=\"159.0334470602\" stdev=\"10\"/>\n"
+    "</obs>\n"
+    "</points-observations>\n"
+    "</network>\n"
+    "</gama-local>\n";
+static const char* TEXT_TRAVERSE_START_SEEN_FROM_ORIENTED_STATION =
+    "<?xml version=\"1.0\"?>\n"
+    "<gama-local>\n"
+    "<network axes-xy=\"ne\" angles=\"left-handed\">\n"
+    "<parameters sigma-apr=\"10\" conf-pr=\"0.95\" tol-abs=\"1000\" sigma-act=\"apriori\"/>\n"
+    "<points-observations>\n"
+    "<point id=\"K\" x=\"1500.00000000\" y=\"800.00000000\" fix=\"xy\"/>\n"
+    "<point id=\"A\" x=\"1000.00000000\" y=\"1000.00000000\" fix=\"xy\"/>\n"
+    "<point id=\"B\" x=\"1700.00000000\" y=\"1900.00000000\" fix=\"xy\"/>\n"
+    "<point id=\"1\" adj=\"xy\"/>\n"
+    "<point id=\"2\" adj=\"xy\"/>\n"
+    "<point id=\"3\" adj=\"xy\"/>\n"
+    "<obs from=\"K\">\n"
+    "  <direction to=\"B\" val=\"11.5501705903\" stdev=\"10\"/>\n"
+    "  <direction to=\"A\" val=\"98.7762116818\" stdev=\"10\"/>\n"
+    "</obs>\n"
+    "<obs from=\"A\">\n"
+    "  <direction to=\"1\" val=\"45.5958260755\" stdev=\"10\"/>\n"
+    "  <distance to=\"1\" val=\"291.54759474\" stdev=\"5\"/>\n"
+    "</obs>\n"
+    "<obs from=\"1\">\n"
+    "  <direction to=\"A\" val=\"145.5958260755\" stdev=\"10\"/>\n"
+    "  <direction to=\"2\" val=\"330.0000000000\" stdev=\"10\"/>\n"
+    "  <distance to=\"A\" val=\"291.54759474\" stdev=\"5\"/>\n"
+    "  <distance to=\"2\" val=\"212.13203436\" stdev=\"5\"/>\n"
+    "</obs>\n"
+    "<obs from=\"2\">\n"
+    "  <direction to=\"1\" val=\"30.0000000000\" stdev=\"10\"/>\n"
+    "  <direction to=\"3\" val=\"250.4832764699\" stdev=\"10\"/>\n"
+    "  <distance to=\"1\" val=\"212.13203436\" stdev=\"5\"/>\n"
+    "  <distance to=\"3\" val=\"335.41019662\" stdev=\"5\"/>\n"
+    "</obs>\n"
+    "<obs from=\"3\">\n"
+    "  <direction to=\"2\" val=\"350.4832764699\" stdev=\"10\"/>\n"
+    "  <direction to=\"B\" val=\"122.9553425045\" stdev=\"10\"/>\n"
+    "  <distance to=\"2\" val=\"335.41019662\" stdev=\"5\"/>\n"
+    "  <distance to=\"B\" val=\"320.15621187\" stdev=\"5\"/>\n"
+    "</obs>\n"
+    "<obs from=\"B\">\n"
+    "  <direction to=\"3\" val=\"237.9553425045\" stdev=\"10\"/>\n"
+    "  <distance to=\"3\" val=\"320.15621187\" stdev=\"5\"/>\n"
+    "</obs>\n"
+    "</points-observations>\n"
+    "</network>\n"
+    "</gama-local>\n";
 static const char* TEXT_VECTOR_BETWEEN_POLAR_POINTS =
     "<?xml version=\"1.0\"?>\n"
     "<gama-local>\n"
@@ -389,6 +456,9 @@ static void gen_cases(const sx::Options& opt, std::vector<sx::Case>& cases) {
   if (on("C06")) { { auto sp = std::make_shared<Spec3>(hdiff_on_trig_point()); add("net3d/consistent/" + sp->name + "/cholesky/acord", "spatial networks", [sp] { case_consistent(*sp, 1, true); }); }
     std::vector<Truth> tr{{"P", 1100, 1250, 110, true, true}, {"Q", 1250, 1400, 120, true, true}};
     add("net3d/consistent/vector-between-polar-points/envelope/acord", "spatial networks", [tr] { case_consistent_text("vector between two points fixed by polar shots and levelling", TEXT_VECTOR_BETWEEN_POLAR_POINTS, tr, 0); }); }
+  if (on("C06")) {
+    add("net3d/consistent/two-azimuths-perturbed/envelope/given", "spatial networks", [] { case_consistent_text("point intersected by two azimuths, approximate coordinates 0.5 m off", TEXT_TWO_AZIMUTHS, {{"P", 1100, 1250, 0, true, false}}, 0, true, true); });
+    add("net3d/consistent/traverse-start-seen-from-oriented-station/cholesky/acord", "spatial networks", [] { case_consistent_text("traverse whose start station is observed from another oriented station", TEXT_TRAVERSE_START_SEEN_FROM_ORIENTED_STATION, {{"1", 1150, 1250, 0, true, false}, {"2", 1300, 1400, 0, true, false}, {"3", 1450, 1700, 0, true, false}}, 1, false, false); }); }
   if (on("C13")) { for (int v = 0; v < 2; v++) add(std::string("net3d/export-description/") + (v ? "station-height" : "sight-heights"), "spatial networks", [v] { case_export_description(v != 0); });
     add("net3d/export-description/station-height-covmat", "spatial networks", [] { case_export_description(true, "ne", "left-handed", true); });
     add("net3d/export-description/station-height-degrees", "spatial networks", [] { case_export_description(true, "ne", "left-handed", false, true); });
